@@ -56,7 +56,8 @@ rec["check_results"] = results
 dst = "/verif/seeded/%s%s" % (pid, suffix)
 os.makedirs(dst, exist_ok=True)
 for f in ("patch.diff", "zz_seed_demo_test.go"):
-    shutil.copy(os.path.join(src, f), dst)
+    if os.path.realpath(src) != os.path.realpath(dst):
+        shutil.copy(os.path.join(src, f), dst)
 meta = {}
 try: meta = json.load(open(os.path.join(src, "meta.json")))
 except Exception as e: meta = {"error": str(e)}
